@@ -664,7 +664,10 @@ namespace avel {
     [[nodiscard]]
     AVEL_FINL vec8x32f negate(mask8x32f m, vec8x32f v) {
         #if defined(AVEL_AVX512VL) || defined(AVEL_AVX10_1)
-        return vec8x32f{_mm256_mask_sub_ps(decay(v), decay(m), _mm256_setzero_ps(), decay(v))};
+        // Flip the sign bit of the selected lanes (0 - v would keep the sign of zeros and NaNs)
+        auto bits = _mm256_castps_si256(decay(v));
+        auto flipped = _mm256_mask_xor_epi32(bits, decay(m), bits, _mm256_set1_epi32(0x80000000));
+        return vec8x32f{_mm256_castsi256_ps(flipped)};
 
         #elif defined(AVEL_AVX)
         auto negation_mask = _mm256_and_ps(decay(m), _mm256_set1_ps(float_sign_bit_mask));
